@@ -2,7 +2,7 @@
 //! copies, staleness (`obj == F[sol]`) and objective-call counts are all observable exactly.
 use std::sync::{
     atomic::{AtomicU64, Ordering},
-    Mutex,
+    Arc, Mutex,
 };
 
 use mahf::{
@@ -10,12 +10,13 @@ use mahf::{
     Individual, SingleObjective,
 };
 
+#[derive(Clone)]
 pub struct TagProblem {
     /// objective value of tag t is `table[t % table.len()]`
     pub table: Vec<f64>,
-    pub calls: AtomicU64,
+    pub calls: Arc<AtomicU64>,
     /// every solution passed to the objective function, in call order
-    pub call_log: Mutex<Vec<u32>>,
+    pub call_log: Arc<Mutex<Vec<u32>>>,
 }
 
 impl TagProblem {
@@ -23,7 +24,7 @@ impl TagProblem {
         Self::with_table((0..n).map(|x| x as f64).collect())
     }
     pub fn with_table(table: Vec<f64>) -> Self {
-        Self { table, calls: AtomicU64::new(0), call_log: Mutex::new(Vec::new()) }
+        Self { table, calls: Arc::new(AtomicU64::new(0)), call_log: Arc::new(Mutex::new(Vec::new())) }
     }
     pub fn f(&self, tag: u32) -> f64 {
         self.table[tag as usize % self.table.len()]
